@@ -215,12 +215,11 @@ Definition enc_oiq (e : endian) (iq : option (list param)) : list Z :=
 (* DataFrag::write_to, inline QoS part.
    [old]: as found — `writer.write_value(&self.inline_qos)` writes the Option<ParameterList> with
    speedy's Option encoding, i.e. a tag byte 1 before the list.
-   [new]: after the fix — the list only.  Both skip an empty list. *)
+          An empty list was skipped.
+   [new]: after fix 989bc45 — `if let Some(iq) = .. { writer.write_value(iq) }` as in Data. *)
 Definition enc_frag_iq (old : bool) (e : endian) (iq : option (list param)) : list Z :=
-  match iq with
-  | Some (p :: ps) => (if old then [1] else []) ++ enc_pl e (p :: ps)
-  | _ => []
-  end.
+  if old then match iq with Some (p :: ps) => [1] ++ enc_pl e (p :: ps) | _ => [] end
+  else enc_oiq e iq.
 
 (* Writable for each submessage body, in the submessage's endianness e *)
 Definition enc_body_gen (old : bool) (e : endian) (b : body) : list Z :=
